@@ -116,6 +116,12 @@ func ruleR192(c *Ctx) {
 		if lk != foundSym {
 			return true
 		}
+		// found := slices.IndexFunc(ops, pred) / slices.Index(ops, x)
+		if call, ok := ast.Unparen(as.Rhs[0]).(*ast.CallExpr); ok {
+			if cal := Callee(info, call); cal != nil && cal.Pkg() != nil && cal.Pkg().Path() == "slices" && (cal.Name() == "IndexFunc" || cal.Name() == "Index") {
+				okFound = true
+			}
+		}
 		if r, ok := enclosingLoop(c, as, fd).(*ast.RangeStmt); ok {
 			if kid, ok := r.Key.(*ast.Ident); ok {
 				rk, _ := exprKey(info, as.Rhs[0])
